@@ -11,7 +11,6 @@ pub fn prop() -> HistProp {
     let mut rc = RunCfg::new(&[Aspect::Remount, Aspect::Panic, Aspect::Budget]);
     rc.flush_each = false;
     rc.checkpoint = true;
-    rc.known.dst_inside_src = true; // precondition-like: those histories are C01/C03's business
     rc.known.partial_create_nospace = false;
     let mut gc = GenCfg::mixed();
     gc.max_ops = 30;
